@@ -7,6 +7,7 @@
    headers <sid> <coins> <hdr>;<hdr>...      hdr = hash,parent,number,diff,root
    sethead <sid> <n>
    reopen  <sid>
+   rollback <sid> <hash,hash,...>            BlockChain.Rollback (hashes oldest first)
         -> "<status> <index>"    status = ok | err:<kind> | panic | fuel | nocoin | unmodelled
    obs     <sid> <maxheight> <hashes,...> <roots,...> <txs,...>
    log     <sid>                  -> the writes issued since the previous "log", in program order
@@ -112,6 +113,7 @@ let handle (toks : string list) : string =
     finish sid (let ((a, b), c) = insert_header_chain chain (parse_coins cs) !(sess sid) in (a, b, c))
   | ["sethead"; sid; n] -> let (a, c) = set_head (num n) !(sess sid) in finish sid (a, N0, c)
   | ["reopen"; sid] -> let (a, c) = reopen !(sess sid) in finish sid (a, N0, c)
+  | ["rollback"; sid; hs] -> let (a, c) = rollback (List.map num (list_of ',' hs)) !(sess sid) in finish sid (a, N0, c)
   | ["obs"; sid; maxh; hashes; roots; txs] ->
     observe !(sess sid) (int_of_string maxh) (List.map num (list_of ',' hashes)) (List.map num (list_of ',' roots)) (List.map num (list_of ',' txs))
   | ["log"; sid] ->
